@@ -9,6 +9,7 @@ import (
 	"path/filepath"
 	"sort"
 	"strings"
+	"unicode/utf16"
 
 	"github.com/akalin/gopar/par1"
 	"github.com/akalin/gopar/par2"
@@ -33,6 +34,7 @@ type c15Case struct {
 	FailW    bool   `json:"failw,omitempty"`    // in-memory runs: the first file write of Repair fails (whatever Repair then tries instead must stay inside)
 	Zero     bool   `json:"zero,omitempty"`     // the hostile entry declares a file of length 0 (nothing to reconstruct, but something to create)
 	NonSaved bool   `json:"nonsaved,omitempty"` // PAR1: the hostile entry is listed but not saved in the parity set (status bit 0 clear)
+	Uni      bool   `json:"uni,omitempty"`      // PAR2: the hostile name is carried by the optional Unicode-filename packet of the entry (UTF-16LE), its file description carries a harmless ASCII name
 	Dmg      bool   `json:"dmg,omitempty"`      // damaged copies of the declared files are present in the archive directory (else they are missing)
 }
 
@@ -96,6 +98,10 @@ func c15Gen(g *core.Gen) {
 		for _, n := range names {
 			for pos := 0; pos < 2; pos++ {
 				g.Emit(&c15Case{Fmt: f, Name: n, Pos: pos, Zero: true})
+				if f == "p2" {
+					g.Emit(&c15Case{Fmt: f, Name: n, Pos: pos, Uni: true})
+					g.Emit(&c15Case{Fmt: f, Name: n, Pos: pos, Uni: true, Dmg: true})
+				}
 				if len(n) <= 6 {
 					g.Emit(&c15Case{Fmt: f, Name: n, Pos: pos, FailW: true})
 					g.Emit(&c15Case{Fmt: f, Name: n, Pos: pos, FailW: true, Dmg: true})
@@ -178,6 +184,9 @@ func c15Run(ci interface{}, r *core.Rec) {
 	}
 	names := []string{"good.bin", "good2.bin"}
 	names[c.Pos] = hostile
+	if c.Uni {
+		names[c.Pos] = "plain.bin"
+	}
 	datas := [][]byte{scen.Content("uniq", r.Seed, 0, 9, 4), scen.Content("uniq", r.Seed, 1, 6, 4)}
 	if c.Zero {
 		datas[c.Pos] = []byte{}
@@ -195,6 +204,26 @@ func c15Run(ci interface{}, r *core.Rec) {
 				core2 = append(core2, set.DescPacket(f))
 				if len(f.Data) > 0 {
 					core2 = append(core2, set.IFSCPacket(f))
+				}
+			}
+		}
+		if c.Uni {
+			// the spec's optional packets that name a file a second time: Unicode filename (file id + UTF-16LE name). A
+			// client that honours it has to apply the same name rules to it.
+			for _, f := range set.Files {
+				if f.Name == "plain.bin" {
+					body := append([]byte{}, f.ID[:]...)
+					for _, u := range utf16.Encode([]rune(hostile)) {
+						body = append(body, byte(u), byte(u>>8))
+					}
+					for len(body)%4 != 0 {
+						body = append(body, 0)
+					}
+					var t [16]byte
+					copy(t[:], "PAR 2.0\x00UniFileN")
+					up := rpar2.Packet(set.SetID, t, body)
+					// once before and once after the other packets
+					core2 = append(append([][]byte{up}, core2...), up)
 				}
 			}
 		}
@@ -486,7 +515,7 @@ func init() {
 	core.Register(&core.Prop{
 		ID:    "C15",
 		Level: "model_checking",
-		Rule: "bounded-exhaustive declared names: every path built from components {a, .., ., empty, a.., ..a} of length 1-4 (thorough 1-5), each with/without a leading and a trailing slash, plus '..' look-alikes with a control character inside / before / after, backslash, NUL, drive-letter, UNC, long-traversal and non-ASCII (UTF-8, Latin-1, invalid UTF-8) spellings and absolute paths into a canary tree; in each position of a 2-file set; PAR1 and PAR2 archives written by the reference writers as fully repairable sets whose declared files are x {missing, present in the archive directory but damaged, present and intact (PAR1)}; the hostile entry also declared with length 0; short names also with the first file write of Repair failing (a fallback location must stay inside too); real Verify (PAR1: also with the full parity check) and Repair, plus the staged Decoder API behind Repair used directly (NewDecoder, LoadFileData, LoadParityData, Repair - stopping at the first error, and by a caller that keeps going on the same object: every stage called twice, and the whole procedure twice); PAR1 also with the hostile entry listed but not saved in the parity set. Real-directory runs execute from a third directory inside the canary tree, so anything resolved against the current directory is seen. All names run on the recording in-memory filesystem; names shorter than 9 characters (thorough: 12) additionally on a real directory with a canary tree (byte snapshot of everything around the archive directory before/after). PAR2 Create with inputs outside the index directory in 10 spellings. " +
+		Rule: "bounded-exhaustive declared names: every path built from components {a, .., ., empty, a.., ..a} of length 1-4 (thorough 1-5), each with/without a leading and a trailing slash, plus '..' look-alikes with a control character inside / before / after, backslash, NUL, drive-letter, UNC, long-traversal and non-ASCII (UTF-8, Latin-1, invalid UTF-8) spellings and absolute paths into a canary tree; in each position of a 2-file set; PAR1 and PAR2 archives written by the reference writers as fully repairable sets whose declared files are x {missing, present in the archive directory but damaged, present and intact (PAR1)}; the hostile entry also declared with length 0; PAR2 also with the hostile name carried by the optional Unicode-filename packet of an entry whose file description is harmless; short names also with the first file write of Repair failing (a fallback location must stay inside too); real Verify (PAR1: also with the full parity check) and Repair, plus the staged Decoder API behind Repair used directly (NewDecoder, LoadFileData, LoadParityData, Repair - stopping at the first error, and by a caller that keeps going on the same object: every stage called twice, and the whole procedure twice); PAR1 also with the hostile entry listed but not saved in the parity set. Real-directory runs execute from a third directory inside the canary tree, so anything resolved against the current directory is seen. All names run on the recording in-memory filesystem; names shorter than 9 characters (thorough: 12) additionally on a real directory with a canary tree (byte snapshot of everything around the archive directory before/after). PAR2 Create with inputs outside the index directory in 10 spellings. " +
 			"Oracle: every write path, cleaned, lies inside the index directory tree (PAR1: directly in it); nothing outside changes or appears; Create refuses. non-trivial = every case (each declares a hostile or boundary name)",
 		Assumptions: []string{"reads outside the directory are counted in evidence but are not an alarm (the statement constrains create/modify/delete)", "Linux path semantics: backslash is an ordinary character"},
 		NewCase:     func() interface{} { return &c15Case{} },
